@@ -237,15 +237,16 @@ Proof.
   - apply I.
 Qed.
 
-Lemma reopen_spec : forall K d pre ch, inv K d ->
+Lemma reopen_spec : forall K d pre ch, inv K (opened d) ->
   let '(d1, hs) := reopen d pre in
   let d2 := punched d1 hs ch in
   inv K d2 /\ nf d2 = nf d /\ nm d2 = nm d /\ usr d2 = usr d /\ rmd d2 = rmd d /\ nblk d2 = nblk d /\
   punch d2 = punch d /\
-  (forall J b, keeps (opened d) J -> top (fl d2) J b = top (fl d) J b).
+  (forall J b, keeps (opened d) J -> top (fl d2) J b = top (fl d) J b) /\
+  (* before the holes are applied the files are untouched *)
+  wf K d1 /\ nf d1 = nf d /\ nblk d1 = nblk d /\ fl d1 = fl d.
 Proof.
-  intros K d pre ch I. unfold reopen. fold (opened d).
-  pose proof (opened_inv K d I) as I1.
+  intros K d pre ch I1. unfold reopen. fold (opened d).
   destruct pre.
   - unfold preload. pose proof (preload_from_zero K (opened d) (inv_wf _ _ I1)) as P.
     change (loc (opened d)) with (fun _ : nat => 0).
@@ -256,7 +257,11 @@ Proof.
     split; [|repeat split].
     + eapply inv_same; [apply punched_wf_g; eassumption| |exact I1]. repeat split.
     + intros J b HK. rewrite (punched_keeps (set_loc (opened d) l) hs ch J b Hs' HK). reflexivity.
-  - cbn [punched apply_holes set_fl]. split; [|repeat split].
+    + apply W1.
+    + apply W1.
+    + apply W1.
+    + apply W1.
+  - cbn [punched apply_holes set_fl]. split; [|repeat split]; try apply (inv_wf _ _ I1).
     destruct I1 as [A B C D]. constructor; assumption.
 Qed.
 
